@@ -35,6 +35,8 @@ const (
 	cEmpty // present with an empty value: still a credential, and an invalid one
 )
 
+var c04Spell int
+
 var carrierNames = []string{"absent", "valid", "invalid-signature", "malformed", "duplicated", "empty"}
 
 func runC04(a args) error {
@@ -99,6 +101,8 @@ func runC04(a args) error {
 		}
 		if v := val("q", st[1]); v != nil {
 			q.AuthQry = v
+			c04Spell++
+			q.QrySpell = c04Spell % 3
 		}
 		if v := val("c", st[2]); v != nil {
 			q.Cookie = &v[0] // a duplicated cookie is the same cookie sent twice: the first one counts
